@@ -2199,6 +2199,8 @@ class Exec:
             del s2.blocks[blk]
             s2.events[-1] = 'alloc -> null'
             return [(st, 'ret', BlockPtr(blk)), (s2, 'ret', NullPtr())]
+        if re.match(r'NonNull::<.*>::(new_unchecked|as_ptr|cast::<.*>)$', c) and isinstance(args[0], (BlockPtr, _Ptr)):
+            return R(args[0])      # NonNull is a transparent wrapper around the raw pointer
         if re.match(r'Box::<.*>::into_raw', c):
             b = args[0]
             if isinstance(b, BoxVal) and isinstance(b.ptr, BlockPtr) and b.ptr.block in st.blocks:
@@ -2230,8 +2232,9 @@ class Exec:
                     st.blocks[p.block] = 'boxed'
                 return R(BoxVal(BlockPtr(p.block), init=True))
             if isinstance(p, BlockPtr) and p.block in st.blocks:
+                s.require(st, z3.BoolVal(st.blocks[p.block] != 'freed'), 'Box::from_raw on a heap block that was already freed (double free)', where)
                 st.blocks[p.block] = 'boxed'
-            return R(BoxVal(p, init=not c.startswith('Box::<MaybeUninit<')))
+            return R(BoxVal(p, init=not c.startswith(('Box::<MaybeUninit<', 'Box::<GenericArray<MaybeUninit<'))))
         # ---- Vec<T> / Box<[T]> (std, by contract): {'kind': 'vec', 'arr': buffer (capacity elements), 'len', 'blk'}; st.notes['cap'][arr] = capacity
         if re.match(r'Vec::<T>::with_capacity$', c):
             st.calls += 1
